@@ -118,13 +118,17 @@ inductive Axis | absent | none | ints (l : List Int)
 /-! ### `writable_array` -/
 
 /-- Contract of `with writable_array(obj, dtype=…) as arr`: `arr = np.asarray(obj, dtype)`;
-on exit `obj[:] = arr`.  For a 0-d array `obj[:]` raises `IndexError` (even while another
-exception is propagating).  Otherwise the object finally holds what was written to `arr`
-(cast to its own dtype): `copyIn` says whether `arr` is a temporary. -/
+on exit `obj[:] = arr` (`obj[()] = arr` for a 0-d array).  The object finally holds what was
+written to `arr` (cast to its own dtype): `viaCopy` says that `arr` is a temporary.
+`writeBackOld` is the code before the repair of C17-F5 (`obj[:] = arr` always: `IndexError`
+for a 0-d array, even while another exception is propagating). -/
 inductive WriteBack | direct | viaCopy | indexError
   deriving DecidableEq, Repr
 
-def writeBack (o : OutKind) (dtypeKwDiffers : Bool) : WriteBack :=
+def writeBack (_o : OutKind) (dtypeKwDiffers : Bool) : WriteBack :=
+  if dtypeKwDiffers then .viaCopy else .direct
+
+def writeBackOld (o : OutKind) (dtypeKwDiffers : Bool) : WriteBack :=
   match o with
   | .ndarray0 => .indexError
   | _ => if dtypeKwDiffers then .viaCopy else .direct
@@ -189,15 +193,32 @@ def ctorT (dt : DType) (w : Option Weighting) : Except String Weighting :=
       else if dt.canCastFromF64 then .ok (.array e) else .error "ValueError"
   | some (.const c e) => if !dt.isNumeric then .error "ValueError" else .ok (.const c e)
 
-/-- Wrapping in `__call__`: the space is built with **`self.shape`** (not `res.shape`) and
-`res.dtype`; weighting propagated iff floating. `element(res)` then checks the shape. -/
-def wrapCall (s : TSelf) (prop : Bool) (v : NpVal) : Except String Ret :=
+/-- Wrapping in `__call__` BEFORE the repair of C17-F1: the space was built with
+**`self.shape`** (not `res.shape`) and `res.dtype`; weighting propagated iff floating;
+`element(res)` then checked the shape. Kept only to document the sensitivity. -/
+def wrapCallOld (s : TSelf) (prop : Bool) (v : NpVal) : Except String Ret :=
   match v with
   | .arr sh dt =>
       match ctorT dt (if prop && dt.isFloating then some s.w else Option.none) with
       | .error e => .error e
       | .ok w => if padShape s.shape.length sh = s.shape then .ok (.wrapT s.shape dt w)
                  else .error "ValueError"
+  | _ => .error "AttributeError"
+
+/-- Wrapping in `__call__`: the space is built with `res.shape` and `res.dtype`. With one
+output (`prop`) the weighting is propagated iff the result is floating and has the element's
+shape (constant 1 with the same exponent if broadcasting enlarged it); two-output ufuncs get
+the default weighting. -/
+def wrapCall (s : TSelf) (prop : Bool) (v : NpVal) : Except String Ret :=
+  match v with
+  | .arr sh dt =>
+      let w : Option Weighting :=
+        if prop && dt.isFloating then
+          (if sh ≠ s.shape then some (.const 1 s.w.exp) else some s.w)
+        else Option.none
+      match ctorT dt w with
+      | .error e => .error e
+      | .ok w => .ok (.wrapT sh dt w)
   | _ => .error "AttributeError"
 
 /-- Wrapping for the other methods: space built with `res.shape`; weighting propagated iff
@@ -229,7 +250,6 @@ def tensorDispatch (s : TSelf) (m : Method) (nout : Nat) (outs : List OutKind) (
     Outcome :=
   if !arityOk m nout outs.length then .err "ValueError"
   else if !outs.all validOutT then .notImpl
-  else if outs.any (· = .ndarray0) then .err "IndexError"   -- `obj[:] = arr` on exit
   else
     match np with
     | .err c => .err c
@@ -280,8 +300,15 @@ def unwrapOut : OutKind → OutKind
   | o => o
 
 /-- `reduced_axes` of the code: the axes that REMAIN. `axis` absent or `None` gives
-`range(1, ndim)`; otherwise `[i for i in range(ndim) if i not in axis]` with the raw ints. -/
+`range(1, ndim)`; otherwise `axis = tuple(int(a) % ndim for a in axis)` and
+`[i for i in range(ndim) if i not in axis]`. -/
 def reducedAxes (ndim : Nat) : Axis → List Nat
+  | .absent | .none => (List.range ndim).drop 1
+  | .ints l =>
+      (List.range ndim).filter (fun i => !(l.map (· % (ndim : Int))).contains (i : Int))
+
+/-- The code before the repair of C17-F2: the raw (possibly negative) integers were tested. -/
+def reducedAxesOld (ndim : Nat) : Axis → List Nat
   | .absent | .none => (List.range ndim).drop 1
   | .ints l => (List.range ndim).filter (fun i => !l.contains (i : Int))
 
@@ -304,9 +331,20 @@ def reduceWrap (s : DSelf) (axis : Axis) : Ret → Except String Ret
       else .error "ValueError"
   | r => .ok r
 
-/-- `outer`: partitions appended, constants multiplied; the tensor space is rebuilt WITH a
-weighting whatever the result dtype (a non-numeric dtype makes the constructor raise). -/
+/-- `outer`: partitions appended; for a numeric result dtype (both weightings constant) the
+constants are multiplied and the tensor space rebuilt with that weighting and the result
+tensor's exponent; otherwise (boolean result) the result tensor's own space is used. -/
 def outerWrap (p1 p2 : DSelf) : Ret → Except String Ret
+  | .wrapT sh dt wT =>
+      if sh = (p1.part ++ p2.part).map (·.n) then
+        .ok (.wrapD sh dt (if dt.isNumeric then .const (p1.wc * p2.wc) wT.exp else wT)
+          (p1.part ++ p2.part))
+      else .error "ValueError"
+  | r => .ok r
+
+/-- Before the repair of C17-F3 the weighting was passed whatever the dtype, and the space
+constructor raised for a non-numeric (boolean) result. -/
+def outerWrapOld (p1 p2 : DSelf) : Ret → Except String Ret
   | .wrapT sh dt wT =>
       if !dt.isNumeric then .error "ValueError"
       else if sh = (p1.part ++ p2.part).map (·.n) then
